@@ -532,6 +532,8 @@ class Interp:
                 return False
             if hasattr(STensor, attr):
                 return getattr(v, attr)
+            if attr.startswith("_"):
+                raise InterpError("AttributeError", f"'Tensor' object has no attribute '{attr}'")
             raise Unsupported(f"tensor attribute/method '{attr}'")
         if isinstance(v, Rat):
             if attr == "item":
@@ -1359,7 +1361,11 @@ class Interp:
                 return ClassVal(v.cls)
             if isinstance(v, STensor):
                 return External("torch.Tensor")
-            return type(v)
+            if isinstance(v, Fraction):
+                return _float
+            if isinstance(v, Size):
+                return External("torch.Size")
+            return _REV_TYPE_ALIASES.get(type(v), type(v))
         if fn is _len:
             v = args[0]
             if isinstance(v, Obj) or (isinstance(v, STObj) and self.prog.find_method(v.cls, "__len__") is not None):
@@ -1730,6 +1736,8 @@ _BUILTINS: Dict[str, Any] = {
 # isinstance(x, int) etc. need the type objects: handled via identity on the wrapper functions
 _TYPE_ALIASES = {_int: int, _float: float, _bool: bool, _str: str, _tuple: tuple, _list: list, _dict: dict, _set: set,
                  _slice: slice, _range: range}
+
+_REV_TYPE_ALIASES = {v: k for k, v in _TYPE_ALIASES.items()}
 
 PI = Rat.atom("pi")
 
